@@ -88,6 +88,12 @@ type unsupportedTree struct {
 	Notify   chan int
 }
 
+// recursive only through a map KEY
+type unsupportedKeyNode struct {
+	Labels map[*unsupportedKeyNode]string
+	Wake   chan int
+}
+
 // the recursive field declared before the unsupported one
 type unsupportedLink struct {
 	Name  string
@@ -111,7 +117,11 @@ type reuseKind struct {
 }
 
 func genValueOp(rng *Rng, marshal func(inst interface{}, v interface{}) ([]byte, error)) reuseOp {
-	switch rng.Intn(6) {
+	vsel := rng.Intn(6)
+	if reuseRecursiveBias {
+		vsel = 1
+	}
+	switch vsel {
 	case 0:
 		v := freshUnsupported(rng)
 		return reuseOp{"unsupported-fresh-type " + v.Type().String(), func(inst interface{}) string {
@@ -123,7 +133,11 @@ func genValueOp(rng *Rng, marshal func(inst interface{}, v interface{}) ([]byte,
 		}}
 	case 1:
 		var v interface{}
-		switch rng.Intn(6) {
+		isel := rng.Intn(6)
+		if reuseRecursiveBias {
+			isel = 3 + rng.Intn(3)
+		}
+		switch isel {
 		case 0:
 			v = unsupportedA{A: 1}
 		case 1:
@@ -131,11 +145,24 @@ func genValueOp(rng *Rng, marshal func(inst interface{}, v interface{}) ([]byte,
 		case 2:
 			v = []unsupportedC{{}}
 		case 3:
-			v = unsupportedTree{Name: "t"}
+			if rng.P(1, 2) {
+				v = unsupportedKeyNode{}
+			} else {
+				v = unsupportedTree{Name: "t"}
+			}
 		case 4:
 			v = &unsupportedTree{Name: "t"}
 		default:
-			v = []*unsupportedTree{{Name: "a"}}
+			if rng.P(1, 2) {
+				k := &unsupportedKeyNode{}
+				if rng.P(1, 2) {
+					v = map[*unsupportedKeyNode]string{k: "x"}
+				} else {
+					v = map[*unsupportedKeyNode]string{}
+				}
+			} else {
+				v = []*unsupportedTree{{Name: "a"}}
+			}
 		}
 		return reuseOp{fmt.Sprintf("unsupported %T", v), func(inst interface{}) string {
 			d, err := marshal(inst, v)
@@ -241,6 +268,20 @@ func genDocOp(rng *Rng, cfg *configuration.Configuration, format string, unmarsh
 	case 3:
 		doc = nil
 		what += " empty"
+	case 4:
+		// a string chunk that ends inside a multi-byte character (fails), or a long chunked string that
+		// a validator still holding such a remainder would misread
+		if format == "cbe" {
+			if rng.P(1, 2) {
+				doc = [][]byte{{0x81, 0, 0x90, 0x02, 0xe2}, {0x81, 0, 0x90, 0x04, 0x61, 0xc3}, {0x81, 0, 0x9a, 0x90, 0x07, 0x61, 0x62, 0xf0}}[rng.Intn(3)]
+				what = "string chunk ends mid-character"
+			} else {
+				txt := []string{"abcdefghijklmnop", "\x82\xacbcdefghijklmnopq", "\xa9 long enough to be chunked"}[rng.Intn(3)]
+				doc = append([]byte{0x81, 0, 0x90, byte(len(txt) << 1)}, txt...)
+				what = "long string"
+			}
+			template = nil
+		}
 	}
 	stream := rng.P(1, 2)
 	return reuseOp{fmt.Sprintf("%s %s stream=%v %s", format, what, stream, docText(format, doc)), func(inst interface{}) string {
